@@ -15,7 +15,7 @@ and the extracted executable reachability (specification) on the same script.
 import os, json, re, time
 import vlib
 
-REGK = 'SRBALTEUYZWF'
+REGK = 'SRBALTEUYZWFV'
 F1_SIG = 'mark-recursion-depth'
 MAX_CHAIN_REGULAR = 20000
 
@@ -41,7 +41,7 @@ class Sim:
 
     def ptrs(self, i):
         nd = self.n[i]
-        if nd['k'] in 'SsRrBW': return [x for x in nd['f'] if x]
+        if nd['k'] in 'SsRrBWV': return [x for x in nd['f'] if x]
         if nd['k'] == 'F': return []
         if nd['k'] in 'TEYZ': return list(nd['kv'].values())
         return list(nd['items'])
@@ -58,8 +58,8 @@ class Sim:
             st = [i]
             while st:
                 j = st.pop()
-                if self.n[j]['k'] in 'Uu':
-                    for p in self.n[j]['items']:
+                if self.n[j]['k'] in 'UuV':          # items / fields are handed to GC_Mark_And_Recurse
+                    for p in self.ptrs(j):
                         if self.isreg(p): hand(p)
                         else: st.append(p)          # raw object: GC_Recurse without a mark bit
                 else:
@@ -137,7 +137,7 @@ class Sim:
     def new(self, k, root=False):
         self.nid += 1
         i = self.nid
-        self.n[i] = {'k': k, 'root': root and k in REGK, 'f': [0, 0] if k in 'SsW' else [0], 'items': [], 'kv': {}}
+        self.n[i] = {'k': k, 'root': root and k in REGK, 'f': [0, 0] if k in 'SsWV' else [0], 'items': [], 'kv': {}}
         self.stack.add(i); self.ids.append(i)
         self.emit('N%d%s%s' % (i, k, '!' if self.n[i]['root'] else ''))
         self.grew(None, i)
@@ -159,6 +159,25 @@ class Sim:
         if len(self.stack) > 4000:
             for j in sorted(self.stack)[:500]:
                 if j != keep and j not in self.owned: self.drop(j)
+
+    def chain(self, n, kind, tail=0):
+        """singly linked chain of n nodes of one kind (R Ref, B Box, S struct, U Tuple cons cell, V user type with a
+        Mark method): the first node points to `tail`, node i to node i-1; only the head stays in a stack slot"""
+        first = self.nid + 1
+        self.nid += n
+        prev = tail
+        for i in range(first, first + n):
+            nd = {'k': kind, 'root': False, 'f': [0, 0] if kind in 'SV' else [0], 'items': [], 'kv': {}}
+            if prev:
+                if kind == 'U': nd['items'] = [prev]
+                else: nd['f'][0] = prev
+                if kind == 'B': self.owned.add(prev)
+            self.n[i] = nd
+            prev = i
+        self.ids.extend(range(first, first + n))
+        self.stack.add(first + n - 1)
+        self.emit('L%d,%d,%s,%d' % (first, n, kind, tail)); self.dirty()
+        return first, first + n - 1
 
     def bulk(self, c, mode, n):
         """container c is built from n fresh probe structs that are allocated while the operation consumes its
@@ -275,13 +294,13 @@ class Sim:
     def link2(self, holder, t):
         """deterministic variant of link (field 0)"""
         k = self.n[holder]['k']
-        if k in 'SsRrW': self.store(holder, 0, t)
+        if k in 'SsRrWV': self.store(holder, 0, t)
         else: self.insert(holder, t, key=(t if k in 'YZ' else 7))
 
     def link(self, holder, t):
         """make holder point to t by whatever its kind offers"""
         k = self.n[holder]['k']
-        if k in 'SsW': self.store(holder, self.rng.randrange(2), t)
+        if k in 'SsWV': self.store(holder, self.rng.randrange(2), t)
         elif k in 'Rr': self.store(holder, 0, t)
         elif k == 'B':
             return False
@@ -613,6 +632,61 @@ def gen_finaliser(rng):
     return s.script()
 
 
+DEEP_KINDS = 'RBSUV'
+
+
+def gen_deep(rng, length, kind=None, mix=None):
+    """a deep singly linked structure: the mark phase has to nest `length` levels (the model has no depth bound; in the
+    implementation the depth is limited by the C stack only: finding F1).  mix: None plain chain | 'elem' the chain hangs
+    off a container element | 'cycle' the far end points back into the chain | 'shared' two chains share a tail.
+    Every link must survive collections while the head is held, and be gone after the head is dropped."""
+    s = Sim(rng)
+    kind = kind or rng.choice(DEEP_KINDS)
+    mix = mix if mix is not None else rng.choice([None, None, 'elem', 'cycle', 'shared'])
+    if rng.random() < .3: s.burst(rng.choice([5, 50]))
+    heads = []
+    if mix == 'shared':
+        t0, t1 = s.chain(max(1, length // 2), kind if kind != 'B' else 'R')
+        a0, a1 = s.chain(length - length // 2, kind if kind != 'B' else 'R', t1)
+        b0, b1 = s.chain(max(1, length // 3), rng.choice('RSUV'), t1)
+        s.drop(t1)
+        heads = [a1, b1]
+    else:
+        f0, f1 = s.chain(length, kind)
+        if mix == 'cycle' and kind != 'B':
+            back = rng.choice([f1, f0, f0 + length // 2])
+            if kind == 'U': s.insert(f0, back)
+            else: s.store(f0, 0 if kind in 'R' else 1 if kind in 'SV' else 0, back)
+        heads = [f1]
+    roots = []
+    for hd in heads:
+        if mix == 'elem':
+            c = s.new(rng.choice('ALTEYZU'), root=rng.random() < .3)
+            s.link(c, hd); s.drop(hd)
+            roots.append(root_somehow(s, c, rng, tlsslot=len(roots) + 1))
+        else:
+            roots.append(root_somehow(s, hd, rng, tlsslot=len(roots) + 1))
+    s.exact(); s.collect()
+    if rng.random() < .5: s.burst(rng.choice([10, 100]))
+    s.collect(narrow=True)
+    for r in roots[:1]: unroot(s, r)
+    s.exact()
+    for r in roots[1:]: unroot(s, r)
+    s.exact()
+    return s.script()
+
+
+def deep_cases(rng, lengths):
+    """the deep-structure stream: every length once per representation group, the mixtures at moderate depth"""
+    out = []
+    for L in lengths:
+        ks = rng.sample(DEEP_KINDS, 2)
+        for k in ks: out.append(gen_deep(rng, L, k, None))
+    for mix in ('elem', 'cycle', 'shared'):
+        out.append(gen_deep(rng, rng.choice([4097, 5000]), rng.choice('RSUV'), mix))
+    return out
+
+
 def gen_bulk(rng):
     """collection points INSIDE a container operation: a container held by a root is built from fresh managed objects
     that are allocated while the operation consumes its argument (concat / assign of a lazily allocating iterable into
@@ -673,6 +747,18 @@ def valid_script(case):
             v = [int(x) for x in re.findall(r'\d+', rest)]
             if c == '@': continue
             if c in 'NCGHM' and s.pending_finalisers(): return False      # only an exact collection may finalise an F node
+            if c == 'L':
+                m = re.match(r'(\d+),(\d+),([RBSUV]),(\d+)$', rest)
+                if not m or s.pending_finalisers() or not owned_ok(): return False
+                first, n, kind, tail = int(m.group(1)), int(m.group(2)), m.group(3), int(m.group(4))
+                if first <= s.nid or n < 1 or any(first <= q[0] < first + n for q in s.qcfg.values()): return False
+                if tail:
+                    if not s.usable(tail) or tail in s.owned: return False
+                    if kind == 'B' and (s.indegree(tail) or tail not in s.stack or s.n[tail]['root'] or not s.isreg(tail)): return False
+                s.nid = first - 1
+                s.chain(n, kind, tail)
+                if kind == 'B' and tail: s.drop(tail)
+                continue
             if c == 'B':
                 m = re.match(r'(\d+),([cas]),(\d+),(\d+)$', rest)
                 if not m or s.pending_finalisers() or not owned_ok(): return False
@@ -745,7 +831,9 @@ def valid_script(case):
                 if rest[0] == '+':
                     if not s.usable(v[1]) or v[1] in s.owned or not s.isreg(v[1]): return False
                     s.tls_set(v[0], v[1])
-                else: s.tls_rem(v[0])
+                else:
+                    if v[0] not in s.tls: return False       # rem of an absent thread-local key raises KeyError
+                    s.tls_rem(v[0])
             elif c == 'X':
                 i = v[0]
                 if i not in s.stack or not s.isreg(i) or i in s.owned or s.indegree(i) or s.n[i]['k'] == 'B': return False
@@ -830,6 +918,8 @@ def oracle(case, impl, spec):
             return 'observation %d (%s): reachable probe object(s) %s finalised' % (n, a['op'], sorted(fin)[:8])
         if a['c']:
             return 'observation %d (%s): canary of %s destroyed' % (n, a['op'], sorted(a['c'])[:8])
+        if a.get('u'):
+            return 'observation %d (%s): object(s) %s freed by the collector but not finalised exactly once' % (n, a['op'], sorted(a['u'])[:8])
     return None
 
 
@@ -885,6 +975,8 @@ def corr(case, impl, model):
 def nontrivial(case, impl):
     """some collection kept at least two nodes while at least one node had been reclaimed"""
     created = set(int(x) for x in re.findall(r'[NC](\d+)[A-Z=]', case))
+    for m in re.finditer(r'L(\d+),(\d+),[RBSUV]', case):
+        created |= set(range(int(m.group(1)), int(m.group(1)) + int(m.group(2))))
     for m in re.finditer(r'B\d+,[cas],(\d+),(\d+)', case):
         created |= set(range(int(m.group(2)), int(m.group(2)) + int(m.group(1))))
     for o in parse(impl):
@@ -912,6 +1004,7 @@ def classify(case, impl, why):
 
 
 CORPUS = [
+    'L1,4100,R,0 E K-4100 E', 'L1,4200,U,0 T+1=4200 K-4200 G E T-1 E',       # seed C01-r5-2: marking must nest deeper than 4096
     'N1A B1,c,300,10 E G',                                 # seed C01-r3-1: threshold collections in the middle of concat
     'N1A B1,a,300,10 E', 'N1U B1,c,200,10 E',              # ... of assign into an Array, of concat into a heap Tuple
     'N1L T+1=1 K-1 B1,c,120,10 B1,a,90,200 E N2E! K-2 B2,s,150,400 G E',
@@ -1014,14 +1107,23 @@ def run(ctx):
     bad = [c for c in corpus if not valid_script(c)]
     if bad: raise RuntimeError('corpus case is not a valid program: ' + bad[0][:200])
     feed(d, corpus, 'corpus')
-    n = 1500 if quick else 10000
+    n = 1300 if quick else 10000
     size = 200 if quick else 5000
-    cases = []
     t0 = time.time()
+    # deep structures first: chain lengths around a plausible "depth cap" and far beyond what the repository's own tests build
+    DEEP = [1000, 4095, 4096, 4097, 5000, 10000] + ([] if quick else [MAX_CHAIN_REGULAR])
+    deep = deep_cases(ctx.rng, DEEP)
+    cases = []
+    ctx.cov['deep_structures'] = ('%d scripts: singly linked chains of %s links through Ref / Box / struct / heap-Tuple cons cell / user type '
+                                  'with a Mark method (2 representations per length), plus chain hanging off a container element, chain '
+                                  'ending in a cycle, two chains sharing a tail' % (len(deep), ', '.join(map(str, DEEP))))
     for i in range(n):
         if quick: sz = ctx.rng.choice([6, 12, 25, 60, size])
         else: sz = size if i % 800 == 0 else ctx.rng.choice([6, 12, 25, 60, 200, 200, 600])     # 13 graphs of up to 5000 nodes
         cases.append(gen_case(ctx.rng, sz))
+    # the deep scripts are spread over the stream so that the parallel shards of run_lines share them
+    step = max(1, len(cases) // len(deep))
+    for j, c in enumerate(deep): cases.insert(j * step, c)
     if not quick:
         for L in (1000, 5000, MAX_CHAIN_REGULAR):
             for kinds in ('R', 'RS', 'RSALTEU'):
@@ -1061,6 +1163,8 @@ def run(ctx):
     stats(ctx, d, cases)
 
     def extra(dd):
+        # directed search after a broken obligation / correspondence: deep structures first, then the random stream
+        feed(dd, [gen_deep(ctx.rng, L, k, None) for L in (4095, 4096, 4097, 10000) for k in DEEP_KINDS])
         feed(dd, [gen_case(ctx.rng, 60) for _ in range(10 * min(n, 300))])
     d.report(extra)
     # open finding F1: dedicated probe
